@@ -44,11 +44,12 @@ Record mon := mkMon {
   m_live : option N;           (* executor whose Execute() has not returned *)
   m_cur : option cur;          (* executor the client may legitimately talk about *)
   m_owes : bool;               (* a non-OK completion was reported; readiness not re-checked since *)
-  m_synced : bool }.           (* this Run has reached Synchronize *)
+  m_synced : bool;             (* this Run has reached Synchronize *)
+  m_ready : bool }.            (* this Run has checked readiness successfully *)
 
-Definition mon_init : mon := mkMon None None false false.
+Definition mon_init : mon := mkMon None None false false false.
 
-Definition item_begin (m : mon) : mon := mkMon (m_live m) (m_cur m) (m_owes m) false.
+Definition item_begin (m : mon) : mon := mkMon (m_live m) (m_cur m) (m_owes m) false false.
 
 (* Context of an output: the event it belongs to and the snapshot after it. *)
 Record ctx := mkCtx { k_ev : event; k_obs : obs }.
@@ -87,21 +88,21 @@ Definition is_failed (st : rstate) : bool :=
 
 Definition mon_next (c : ctx) (m : mon) (o : out) : mon :=
   match o with
-  | OReady => mkMon (m_live m) (m_cur m) (if ctx_ready c then false else m_owes m) (m_synced m)
+  | OReady => mkMon (m_live m) (m_cur m) (if ctx_ready c then false else m_owes m) (m_synced m) (ctx_ready c)
   | OTimer _ => m
   | OX e r =>
     match emitted e r with
-    | Some st => mkMon (m_live m) (add_em (m_cur m) st) (m_owes m) (m_synced m)
+    | Some st => mkMon (m_live m) (add_em (m_cur m) st) (m_owes m) (m_synced m) (m_ready m)
     | None => m
     end
-  | OExit id => mkMon (if optN_eqb (m_live m) (Some id) then None else m_live m) (m_cur m) (m_owes m) (m_synced m)
+  | OExit id => mkMon (if optN_eqb (m_live m) (Some id) then None else m_live m) (m_cur m) (m_owes m) (m_synced m) (m_ready m)
   | OCancel _ => m
-  | OStart id d _ => mkMon (Some id) (Some (mkCur id d [])) false (m_synced m)
-  | OSync st _ _ => mkMon (m_live m) (m_cur m) (if is_failed st then true else m_owes m) true
+  | OStart id d _ => mkMon (Some id) (Some (mkCur id d [])) false (m_synced m) (m_ready m)
+  | OSync st _ _ => mkMon (m_live m) (m_cur m) (if is_failed st then true else m_owes m) true (m_ready m)
   | ORet _ e =>
     match e with
     | ENone => if ctx_told_idle c && m_synced m
-               then mkMon (m_live m) None (m_owes m) (m_synced m) else m
+               then mkMon (m_live m) None (m_owes m) (m_synced m) (m_ready m) else m
     | _ => m
     end
   end.
@@ -145,13 +146,19 @@ Definition chk_report_honest : chk := fun c m o =>
   | _ => ""
   end%string.
 
-(* idle_after_failure *)
+(* idle_after_failure: a failed action is reported with PreferBeingIdle and
+   the worker keeps asking to be left idle until readiness was re-checked;
+   more generally an idle worker asks for work only in a Run in which the
+   readiness check has just succeeded. *)
 Definition chk_idle_after_failure : chk := fun c m o =>
   match o with
   | OSync st p _ =>
     if is_failed st && negb p then "failure-reported-without-prefer-idle"
     else if m_owes m && negb (is_failed st) && negb p then "solicits-work-before-readiness-recheck"
-    else ""
+    else match st with
+         | RIdle => if negb p && negb (m_ready m) then "solicits-work-without-readiness-check" else ""
+         | _ => ""
+         end
   | _ => ""
   end%string.
 
@@ -210,3 +217,23 @@ Fixpoint chk_trace (k : chk) (m : mon) (tr : list item) : string :=
   end.
 
 Definition trace_ok (k : chk) (tr : list item) : bool := is_empty (chk_trace k mon_init tr).
+
+(* A check on the monitor state at the end of every item, against the
+   snapshot: if the client holds that the scheduler cannot think it is
+   executing (until = nil), then no executor is running. *)
+Definition chk_end (c : ctx) (m : mon) : string :=
+  match o_until (k_obs c) with
+  | None => if is_some (m_live m) then "until-nil-while-executing" else ""
+  | Some _ => ""
+  end%string.
+
+Fixpoint end_trace (m : mon) (tr : list item) : string :=
+  match tr with
+  | [] => ""
+  | it :: r =>
+    let c := ctx_of it in
+    let m' := mon_outs c (item_begin m) (i_outs it) in
+    cat2 (chk_end c m') (end_trace m' r)
+  end.
+
+Definition end_ok (tr : list item) : bool := is_empty (end_trace mon_init tr).
